@@ -42,7 +42,8 @@ Record sst := mkSt {
   cos   : list co;                 (* id -> coroutine (ids are allocation order, from 0) *)
   stack : list (nat * how);        (* running chain, top first; main is below the last *)
   evs   : list (list value);         (* emitted events, most recent first *)
-  tbc   : bool                     (* every body holds one to-be-closed variable *)
+  tbc   : nat    (* 0: no to-be-closed variable; 1: every body holds one whose handler records its call;
+                    2: ... and then raises its own error; 3: only the handlers of odd-numbered coroutines raise *)
 }.
 
 Inductive outcome := Going (s : sst) | FinOk (s : sst) (vs : list value) | FinErr (s : sst) (v : value).
@@ -76,12 +77,19 @@ Definition new_co (s : sst) (i : nat) (k : kind) : sst :=
   let id := length (cos s) in
   mkSt (set_nth (slots s) i (Some id)) (cos s ++ [mkCo k Susp0 false]) (stack s) (evs s) (tbc s).
 
-(* the coroutine [id] dies with optional error [e]: a started body closes its tbc variable *)
-Definition die (s : sst) (id : nat) (e : option value) : sst :=
-  let s1 := if tbc s && started (get_co s id)
-            then emitev s [VTag tagC; VInt (Z.of_nat id); match e with Some v => v | None => VNil end]
-            else s in
-  set_cs s1 id (CDead e).
+Definition has_tbc (s : sst) : bool := negb (tbc s =? 0).
+Definition handler_fails (s : sst) (id : nat) : bool := (tbc s =? 2) || ((tbc s =? 3) && Nat.odd id).
+Definition handler_err (id : nat) : value := VInt (Z.of_nat (2000 + id)).
+
+(* the coroutine [id] dies with optional error [e]: a started body closes its tbc variable; the handler
+   is called with [e], and if it raises its own error that error REPLACES [e].  Returns the error the
+   coroutine finally died with: it is what the resumer/closer receives and what the dead coroutine keeps. *)
+Definition die (s : sst) (id : nat) (e : option value) : sst * option value :=
+  if has_tbc s && started (get_co s id)
+  then let s1 := emitev s [VTag tagC; VInt (Z.of_nat id); match e with Some v => v | None => VNil end] in
+       let e' := if handler_fails s id then Some (handler_err id) else e in
+       (set_cs s1 id (CDead e'), e')
+  else (set_cs s id (CDead e), e).
 
 (* mark the new top of the stack (if any) running *)
 Definition wake_top (s : sst) : sst :=
@@ -114,10 +122,12 @@ Fixpoint raise_in (stk : list (nat * how)) (s : sst) (v : value) : outcome :=
   match stk with
   | [] => FinErr (set_stack s []) v
   | (id, h) :: rest =>
-    let s1 := wake_top (set_stack (die s id (Some v)) rest) in
-    match deliver_err h v with
+    let (s0, e') := die s id (Some v) in
+    let v' := match e' with Some w => w | None => v end in
+    let s1 := wake_top (set_stack s0 rest) in
+    match deliver_err h v' with
     | Some e => Going (emitev s1 e)
-    | None => raise_in rest s1 v
+    | None => raise_in rest s1 v'
     end
   end.
 Definition raise (s : sst) (v : value) : outcome := raise_in (stack s) s v.
@@ -126,7 +136,16 @@ Definition do_return (s : sst) (vs : list value) : outcome :=
   match stack s with
   | [] => FinOk s vs
   | (id, h) :: rest =>
-    Going (emitev (wake_top (set_stack (die s id None) rest)) (deliver_ok h vs))
+    let (s0, e') := die s id None in
+    let s1 := wake_top (set_stack s0 rest) in
+    match e' with
+    | None => Going (emitev s1 (deliver_ok h vs))
+    | Some w =>            (* the handler failed while the body was returning: the coroutine dies with w *)
+      match deliver_err h w with
+      | Some e => Going (emitev s1 e)
+      | None => raise_in rest s1 w
+      end
+    end
   end.
 
 Definition do_yield (s : sst) (k : nat) (vs : list value) : outcome :=
@@ -177,7 +196,12 @@ Definition do_close (s : sst) (k : nat) (i : nat) : outcome :=
     let o := get_co s id in
     if negb (has_handle o) then Going s else
     match cs o with
-    | Susp0 | SuspY _ => Going (emitev (die s id None) [VTag tagX; kv k; VBool true; VBool true])
+    | Susp0 | SuspY _ =>
+        let (s0, e') := die s id None in
+        match e' with
+        | None => Going (emitev s0 [VTag tagX; kv k; VBool true; VBool true])
+        | Some w => Going (emitev s0 [VTag tagX; kv k; VBool true; VBool false; w])
+        end
     | Run => Going (emitev s [VTag tagX; kv k; VBool false; VMsg 3])
     | Norm => Going (emitev s [VTag tagX; kv k; VBool false; VMsg 4])
     | CDead None => Going (emitev s [VTag tagX; kv k; VBool true; VBool true])
@@ -235,7 +259,7 @@ Fixpoint run_script (s : sst) (k : nat) (sc : list act) : outcome :=
     end
   end.
 
-Definition sinit (nslots : nat) (t : bool) : sst := mkSt (repeat None nslots) [] [] [] t.
+Definition sinit (nslots : nat) (t : nat) : sst := mkSt (repeat None nslots) [] [] [] t.
 
 Definition out_st (o : outcome) : sst :=
   match o with Going s | FinOk s _ | FinErr s _ => s end.
@@ -244,4 +268,4 @@ Definition out_st (o : outcome) : sst :=
 Definition alive (s : sst) : nat :=
   length (filter (fun o => match cs o with CDead _ => false | _ => true end) (cos s)).
 
-Definition srun (nslots : nat) (t : bool) (sc : list act) : outcome := run_script (sinit nslots t) 1 sc.
+Definition srun (nslots : nat) (t : nat) (sc : list act) : outcome := run_script (sinit nslots t) 1 sc.
